@@ -457,17 +457,48 @@ func c15Send(s c15Sender, signal string, k int) (string, error) {
 	}
 }
 
-func c15SendEmpty(s c15Sender, signal string) error {
+// c15SendEmpty sends a request without items: completely empty, or (shaped) with a resource and a scope that hold nothing
+func c15SendEmpty(s c15Sender, signal string, shaped bool) error {
 	ctx := context.Background()
 	switch signal {
 	case "logs":
-		return s.logs.ConsumeLogs(ctx, plog.NewLogs())
+		ld := plog.NewLogs()
+		if shaped {
+			rl := ld.ResourceLogs().AppendEmpty()
+			rl.Resource().Attributes().PutStr("k", "v")
+			rl.ScopeLogs().AppendEmpty().Scope().SetName("s")
+			ld.ResourceLogs().AppendEmpty()
+		}
+		return s.logs.ConsumeLogs(ctx, ld)
 	case "traces":
-		return s.trcs.ConsumeTraces(ctx, ptrace.NewTraces())
+		td := ptrace.NewTraces()
+		if shaped {
+			rs := td.ResourceSpans().AppendEmpty()
+			rs.Resource().Attributes().PutStr("k", "v")
+			rs.ScopeSpans().AppendEmpty().Scope().SetName("s")
+			td.ResourceSpans().AppendEmpty()
+		}
+		return s.trcs.ConsumeTraces(ctx, td)
 	case "profiles":
-		return s.prof.ConsumeProfiles(ctx, pprofile.NewProfiles())
+		pd := pprofile.NewProfiles()
+		if shaped {
+			rp := pd.ResourceProfiles().AppendEmpty()
+			rp.Resource().Attributes().PutStr("k", "v")
+			rp.ScopeProfiles().AppendEmpty().Scope().SetName("s")
+			pd.ResourceProfiles().AppendEmpty()
+		}
+		return s.prof.ConsumeProfiles(ctx, pd)
 	}
-	return s.mets.ConsumeMetrics(ctx, pmetric.NewMetrics())
+	md := pmetric.NewMetrics()
+	if shaped {
+		rm := md.ResourceMetrics().AppendEmpty()
+		rm.Resource().Attributes().PutStr("k", "v")
+		sm := rm.ScopeMetrics().AppendEmpty()
+		sm.Scope().SetName("s")
+		sm.Metrics().AppendEmpty().SetName("metric-without-data-points")
+		md.ResourceMetrics().AppendEmpty()
+	}
+	return s.mets.ConsumeMetrics(ctx, md)
 }
 
 type c15Case struct {
@@ -497,16 +528,17 @@ func c15RunCase(w *c15World, senders []c15Sender, outcomes []c15Outcome, c c15Ca
 	if s.http {
 		tr = "http"
 	}
-	if c.Outcome == "empty-request" {
+	if c.Outcome == "empty-request" || c.Outcome == "no-items-request" {
+		shaped := c.Outcome == "no-items-request"
 		w.cur, w.gotJSON = errors.New("must not be called"), nil
 		if c.Auth == "reject" {
-			if err := c15SendEmpty(*s, c.Signal); len(w.gotJSON) != 0 {
+			if err := c15SendEmpty(*s, c.Signal, shaped); len(w.gotJSON) != 0 {
 				return "unauthenticated-reached-consumer:" + tr, fmt.Sprintf("%s err=%v", desc, err)
 			}
 			return "", ""
 		}
-		if err := c15SendEmpty(*s, c.Signal); err != nil || len(w.gotJSON) != 0 {
-			return "empty-request:" + tr, fmt.Sprintf("%s: a request without items must be acknowledged without invoking the consumer: err=%v consumer calls=%d", desc, err, len(w.gotJSON))
+		if err := c15SendEmpty(*s, c.Signal, shaped); err != nil || len(w.gotJSON) != 0 {
+			return c.Outcome + ":" + tr, fmt.Sprintf("%s: a request without items must be acknowledged without invoking the consumer: err=%v consumer calls=%d", desc, err, len(w.gotJSON))
 		}
 		return "", ""
 	}
@@ -721,6 +753,7 @@ func TestVerif(t *testing.T) {
 				}
 				if !s.levelOnly {
 					run(c15Case{Auth: auth, Sender: s.name, Signal: sig, Outcome: "empty-request"})
+					run(c15Case{Auth: auth, Sender: s.name, Signal: sig, Outcome: "no-items-request"})
 				}
 			}
 		}
